@@ -87,6 +87,15 @@ def judge(c, typ, edges, samples, seq, recs, res, variant, const_width):
         # take the edges the implementation actually built (C12 checks their values)
         o0 = [r for r in recs if r.kind == 'o'][0]
         edges = [common.h2f(t) for t in o0.kv['ranges'].split(',')]
+        res.count('const_width_edge_vectors')
+        bad_i = [i for i in range(len(edges) - 1) if not (edges[i] <= edges[i + 1])]
+        if bad_i:
+            # "the unique bin containing x" presupposes non-decreasing edges: with edge i above edge i+1 a sample lies in two bins
+            # (or in none), whatever find returns
+            i = bad_i[0]
+            viol('const-width-edges-not-sorted', 'with_const_width(%r, %r) built edge %d = %r above edge %d = %r: bins overlap, no '
+                 'sample has a unique bin there' % (const_width[0], const_width[1], i, edges[i], i + 1, edges[i + 1]))
+            return
     h = hm.Hist(edges)
     f = [r for r in recs if r.kind == 'f']
     a = [r for r in recs if r.kind == 'a']
@@ -233,6 +242,13 @@ def run(tier, seed):
                 if not (a < b):
                     continue
                 work.append(('%s%d' % (prefix, L), [], (a, b)))
+            # widths of k + 1/2 (+- a little) subnormal quanta per bin: the step (end - start)/LEN is rounded by up to half a
+            # quantum, the largest relative error a step can have, and the error accumulates over the edges
+            for L in [3, 4, 7, 10, 15, 31, 64, 100, 127]:
+                for k_ in (1, 2, 3, 7, 20, 101):
+                    for extra in ((L + 1) // 2, (L + 1) // 2 + 1, (L - 1) // 2, L - 1, 1):
+                        for a in (0.0, 5e-324 * 77, -5e-324 * (L * k_ // 2)):
+                            work.append(('%s%d' % (prefix, L), [], (a, a + 5e-324 * (L * k_ + extra))))
             rng.shuffle(work)
             nsh = common.NPROC
             descs = [{'name': '%s%d' % (variant[0], s), 'variant': variant, 'binary': binary, 'work': work[s::nsh],
@@ -240,7 +256,7 @@ def run(tier, seed):
             total.merge(common.run_shards(shard, descs))
     except common.Inconclusive as e:
         total.inconclusive.append(str(e))
-    need = {'find_in': 5000, 'find_out': 5000, 'find_nan': 500, 'add_checks': 5000,
+    need = {'const_width_edge_vectors': 500, 'find_in': 5000, 'find_out': 5000, 'find_nan': 500, 'add_checks': 5000,
             'find_on_repeated_edge_vector_at_edge': 500}
     return common.finish(PROP, tier, seed, total, RULE, t0, ASSUME, min_events=need, exhaustive=True,
                          extra={'builds': [v for v, _ in variants], 'exhaustive_LEN': lens,
